@@ -152,6 +152,15 @@ func newWorld() *world {
 			panic(err)
 		}
 		w.valsets[mask] = s
+		// mask + 16: the SAME keys in the same order with another power for the first member (equal PubKeyHash,
+		// different VotePowerHash): a header whose validator list was altered in the powers only
+		vs2 := append([]tmconsensus.Validator(nil), vs...)
+		vs2[0].Power += 7
+		s2, err := tmconsensus.NewValidatorSet(vs2, fx.HashScheme)
+		if err != nil {
+			panic(err)
+		}
+		w.valsets[mask+16] = s2
 	}
 	w.signer = tmconsensus.PassthroughSigner{Signer: fx.PrivVals[0].Signer, SignatureScheme: fx.SignatureScheme}
 	return w
@@ -160,7 +169,7 @@ func (w *world) valset(mask uint64) tmconsensus.ValidatorSet {
 	if mask == 0 {
 		return tmconsensus.ValidatorSet{}
 	}
-	return w.valsets[mask&(1<<nVals-1)]
+	return w.valsets[mask&(1<<(nVals+1)-1)]
 }
 func (w *world) maskOf(vs tmconsensus.ValidatorSet) uint64 {
 	if len(vs.Validators) == 0 {
